@@ -925,11 +925,13 @@ theorem call_ev (nx : Nat) (f : Factory) (curried : List Obj) (args : List Arg) 
     ∀ o, (call nx f curried args).2 = .ok o → nx ≤ o.id ∧ o.id < (call nx f curried args).1 ∧ o.fid = f.fid := by
   unfold call
   split
-  · refine ⟨Nat.le_succ _, ?_⟩
-    intro o ho
-    simp only [Except.ok.injEq] at ho
-    subst ho
-    exact ⟨Nat.le_refl _, Nat.lt_succ_self _, rfl⟩
+  · split
+    · exact ⟨Nat.le_refl _, fun o ho => by cases ho⟩
+    · refine ⟨Nat.le_succ _, ?_⟩
+      intro o ho
+      simp only [Except.ok.injEq] at ho
+      subst ho
+      exact ⟨Nat.le_refl _, Nat.lt_succ_self _, rfl⟩
   · exact ⟨Nat.le_refl _, fun o ho => by cases ho⟩
 
 theorem sInvoke_ev {rec : SCont → Nat → SymRef → SRes Obj} (hr : RecEv rec) (c : SCont) (nx : Nat) (f : Factory) (args : List Arg) :
@@ -1650,7 +1652,7 @@ theorem validate_ne_rec (annos : List SymRef) (curried : List Obj) (args : List 
 
 theorem call_ne_rec (nx : Nat) (f : Factory) (curried : List Obj) (args : List Arg) :
     (call nx f curried args).2 ≠ .error .recursionError := by
-  unfold call; split <;> simp
+  unfold call; split <;> (try split) <;> simp
 
 theorem sCurry_norec {rk : Nat → Nat} {rec : SCont → Nat → SymRef → SRes Obj} (hp : RecEntsP (RankP rk) rec) :
     ∀ (annos : List SymRef),
@@ -2212,5 +2214,135 @@ theorem lookup_getD_le (t : List (Nat × Nat)) (m s : Nat) (h : t.all (fun kv =>
 
 theorem RankP_nil (rk : Nat → Nat) (s : Nat) (f : Factory) (h : f.params = []) : RankP rk s f := by
   intro a ha; simp [pluck, pluckA, Factory.annotated, h] at ha
+
+/-! ### factories whose body raises -/
+
+theorem call_raising (nx : Nat) (f : Factory) (curried : List Obj) (args : List Arg) (h : f.raises = true) :
+    (call nx f curried args).1 = nx ∧ ∀ o, (call nx f curried args).2 ≠ .ok o := by
+  unfold call
+  rw [h]
+  split <;> simp
+
+theorem sInvokeFill_raising (rec : SCont → Nat → SymRef → SRes Obj) (c : SCont) (nx : Nat) (f : Factory) (args : List Arg)
+    (h : f.raises = true) : ∀ o, (sInvokeFill rec c nx f args).2.2 ≠ .ok o := by
+  intro o
+  unfold sInvokeFill
+  simp only
+  rcases sCurryWith rec c nx (pluck f) [] with ⟨c2, nx2, res⟩
+  cases res with
+  | error e => simp
+  | ok curried =>
+    simp only
+    cases validateFill (pluck f) curried args with
+    | error e => simp
+    | ok u => exact (call_raising nx2 f curried args h).2 o
+
+/-- symbol `s` is bound (or defined) to the raising factory `f` and holds no instance -/
+def RaisingAt (f : Factory) (s : Nat) (c : SCont) : Prop := ∃ e, c.ents s = some e ∧ e.inst = none ∧ e.inj.load = .ok f
+
+def RecQ (f : Factory) (s : Nat) (rec : SCont → Nat → SymRef → SRes Obj) : Prop :=
+  ∀ c nx r, RaisingAt f s c → RaisingAt f s (rec c nx r).1 ∧ (r.accept = s → ∀ o, (rec c nx r).2.2 ≠ .ok o)
+
+theorem RaisingAt.setOther {f : Factory} {s : Nat} {c : SCont} (h : RaisingAt f s c) (x : Nat) (e : Option SEntry) (hx : x ≠ s) :
+    RaisingAt f s (c.setEnt x e) := by
+  obtain ⟨e0, h1, h2, h3⟩ := h
+  refine ⟨e0, ?_, h2, h3⟩
+  simp only [setEnt_ents]
+  have : ¬ s = x := fun h' => hx h'.symm
+  simp [this, h1]
+
+theorem sCurry_Q {f : Factory} {s : Nat} {rec : SCont → Nat → SymRef → SRes Obj} (hr : RecQ f s rec) :
+    ∀ (annos : List SymRef) (c : SCont) (nx : Nat) (acc : List Obj), RaisingAt f s c → RaisingAt f s (sCurryWith rec c nx annos acc).1 := by
+  intro annos
+  induction annos with
+  | nil => intro c nx acc h; exact h
+  | cons a as ih =>
+    intro c nx acc h
+    simp only [sCurryWith]
+    by_cases hc : c.canResolve a = true
+    · simp only [hc, if_true]
+      have h1 := (hr c nx a h).1
+      rcases hrec : rec c nx a with ⟨c', nx', res⟩
+      rw [hrec] at h1
+      cases res with
+      | error e => exact h1
+      | ok o => exact ih c' nx' _ h1
+    · simp only [hc]; exact h
+
+theorem sInvoke_Q {f : Factory} {s : Nat} {rec : SCont → Nat → SymRef → SRes Obj} (hr : RecQ f s rec)
+    (c : SCont) (nx : Nat) (g : Factory) (args : List Arg) (h : RaisingAt f s c) : RaisingAt f s (sInvokeFill rec c nx g args).1 := by
+  unfold sInvokeFill
+  simp only
+  have h2 := sCurry_Q hr (pluck g) c nx [] h
+  rcases hcur : sCurryWith rec c nx (pluck g) [] with ⟨c2, nx2, res⟩
+  rw [hcur] at h2
+  cases res with
+  | error e => exact h2
+  | ok curried =>
+    simp only
+    cases validateFill (pluck g) curried args with
+    | error e => exact h2
+    | ok u => exact h2
+
+theorem sResolveWith_Q {f : Factory} {s : Nat} {rec : SCont → Nat → SymRef → SRes Obj} (hf : f.raises = true) (hr : RecQ f s rec) :
+    RecQ f s (sResolveWith rec) := by
+  intro c nx r h
+  by_cases hrs : r.accept = s
+  · -- the symbol itself: its factory is invoked and raises; nothing is stored
+    obtain ⟨e0, h1, h2, h3⟩ := h
+    have hQ : RaisingAt f s c := ⟨e0, h1, h2, h3⟩
+    unfold sResolveWith
+    simp only [hrs, h1]
+    by_cases hni : (e0.lazy && !importable s) = true
+    · simp only [hni, if_true]
+      exact ⟨hQ, fun _ o => by simp⟩
+    simp only [hni, Bool.false_eq_true, if_false, h3]
+    have hinst : (if e0.lazy = true then none else e0.inst) = none := by split <;> simp [h2]
+    simp only [hinst]
+    have hQ1 : RaisingAt f s (if e0.lazy = true then c.setEnt s (some ⟨.direct f, false, none⟩) else c) := by
+      split
+      · exact ⟨⟨.direct f, false, none⟩, by simp [setEnt_ents], rfl, rfl⟩
+      · exact hQ
+    have hQ2 := sInvoke_Q hr _ nx f [] hQ1
+    have hno := sInvokeFill_raising rec (if e0.lazy = true then c.setEnt s (some ⟨.direct f, false, none⟩) else c) nx f [] hf
+    rcases hinv : sInvokeFill rec (if e0.lazy = true then c.setEnt s (some ⟨.direct f, false, none⟩) else c) nx f [] with ⟨c', nx', res⟩
+    rw [hinv] at hQ2 hno
+    cases res with
+    | error err => exact ⟨hQ2, fun _ o => by simp⟩
+    | ok o => exact absurd rfl (hno o)
+  · refine ⟨?_, fun h' => absurd h' hrs⟩
+    unfold sResolveWith
+    simp only
+    cases he : c.ents r.accept with
+    | none => exact h
+    | some e =>
+      simp only
+      by_cases hni : (e.lazy && !importable r.accept) = true
+      · simp only [hni, if_true]; exact h
+      simp only [hni, Bool.false_eq_true, if_false]
+      cases hld : e.inj.load with
+      | error err => exact h
+      | ok g =>
+        simp only
+        have h1 : RaisingAt f s (if e.lazy = true then c.setEnt r.accept (some ⟨.direct g, false, none⟩) else c) := by
+          split
+          · exact h.setOther _ _ hrs
+          · exact h
+        cases (if e.lazy = true then none else e.inst) with
+        | some o => exact h1
+        | none =>
+          simp only
+          have h2 := sInvoke_Q hr _ nx g [] h1
+          rcases hinv : sInvokeFill rec (if e.lazy = true then c.setEnt r.accept (some ⟨.direct g, false, none⟩) else c) nx g [] with ⟨c', nx', res⟩
+          rw [hinv] at h2
+          cases res with
+          | error err => exact h2
+          | ok o => exact h2.setOther _ _ hrs
+
+theorem sResolveF_Q {f : Factory} {s : Nat} (hf : f.raises = true) : ∀ fuel, RecQ f s (sResolveF fuel) := by
+  intro fuel
+  induction fuel with
+  | zero => intro c nx r h; exact ⟨h, fun _ o => by simp [sResolveF]⟩
+  | succ n ih => exact sResolveWith_Q hf ih
 
 end Tranp.DI
